@@ -14,17 +14,21 @@ pub const ECAP: usize = 8;
 use crate::verif_harness::evsum::{summarize_event, EvSum};
 use core::any::TypeId;
 
-/// Some(summary) exactly when T is an event type (then the list is summary-only)
-fn try_summarize<T: 'static>(x: &T) -> Option<EvSum> {
+/// true exactly when T is an event type (then the list is summary-only); a compile-time constant per instantiation
+fn is_event_type<T: 'static>() -> bool {
+    use crate::mqtt::connection::event::GenericEvent;
+    TypeId::of::<T>() == TypeId::of::<GenericEvent<u16>>() || TypeId::of::<T>() == TypeId::of::<GenericEvent<u32>>()
+}
+fn summarize_any<T: 'static>(x: &T) -> EvSum {
     use crate::mqtt::connection::event::GenericEvent;
     if TypeId::of::<T>() == TypeId::of::<GenericEvent<u16>>() {
         let e: &GenericEvent<u16> = unsafe { &*(x as *const T as *const GenericEvent<u16>) };
-        Some(summarize_event(e))
+        summarize_event(e)
     } else if TypeId::of::<T>() == TypeId::of::<GenericEvent<u32>>() {
         let e: &GenericEvent<u32> = unsafe { &*(x as *const T as *const GenericEvent<u32>) };
-        Some(summarize_event(e))
+        summarize_event(e)
     } else {
-        None
+        EvSum::NONE
     }
 }
 
@@ -45,24 +49,26 @@ impl<T: 'static> Vec<T> {
     }
     pub fn push(&mut self, x: T) {
         assert!(self.len < ECAP, "verif container model capacity exceeded");
-        match try_summarize(&x) {
-            Some(s) => {
-                self.sums[self.len] = s;
-                core::mem::forget(x);
-            }
-            None => {
-                self.items[self.len] = Some(Box::new(x));
-            }
+        if is_event_type::<T>() {
+            self.sums[self.len] = summarize_any(&x);
+            core::mem::forget(x);
+        } else {
+            // slots at positions >= len are always None: write without running drop glue on the old value
+            unsafe { core::ptr::write(&mut self.items[self.len], Some(Box::new(x))) };
         }
         self.len += 1;
     }
     /// `events.extend(other_list)`: every caller in the connection module passes a whole list
-    pub fn extend(&mut self, mut other: Vec<T>) {
+    pub fn extend(&mut self, other: Vec<T>) {
         let mut i = 0;
         while i < other.len {
             assert!(self.len < ECAP, "verif container model capacity exceeded");
-            self.sums[self.len] = other.sums[i];
-            self.items[self.len] = other.items[i].take();
+            if is_event_type::<T>() {
+                self.sums[self.len] = other.sums[i];
+            } else {
+                let b = unsafe { core::ptr::read(&other.items[i]) };
+                unsafe { core::ptr::write(&mut self.items[self.len], b) };
+            }
             self.len += 1;
             i += 1;
         }
